@@ -35,6 +35,9 @@ class AnyLifetime(LifetimeModel):
             self._reset_tables()
 
     def _survival_by_year_id(self, t, m):
+        if isinstance(m, slice):
+            # (all cohorts at once, should a caller evaluate the table in one go: the table entry IS the share)
+            return self.table[:, m, ...]
         return self.table[m:, m, ...]
 
 
